@@ -62,6 +62,8 @@ def h_quote(n: int, **sym):
     from penman import constant
     from penman._lexer import lex
     s = _text(sym, n, Q_ALPHA)
+    from vflib.engine import case
+    case(s)
     try:
         q = constant.quote(s)
         back = constant.evaluate(q)
@@ -181,6 +183,8 @@ def h_evaluate(n: int, **sym):
     from penman import constant
     from penman.exceptions import ConstantError
     text = _text(sym, n, E_ALPHA)
+    from vflib.engine import case
+    case(text)
     try:
         v = constant.evaluate(text)
         got = ('ok', v)
